@@ -442,6 +442,30 @@ impl Property for C03 {
         case_strategy()
     }
 
+    /// the fuzzer's bytes ARE the server's byte stream, after a 4-byte header that picks the protocol version, the
+    /// maximum packet size in force and the extra partition
+    fn fuzz_case(&self, data: &[u8]) -> Option<C03Case> {
+        if data.len() < 5 {
+            return None;
+        }
+        let v5 = data[0] & 1 == 0;
+        let stream = &data[4..];
+        let max_size = match data[1] % 8 {
+            0 | 1 | 2 => 0u32,
+            3 => 2,
+            4 => stream.len() as u32,
+            5 => (stream.len() as u32).saturating_sub(1),
+            6 => 268_435_455,
+            _ => 1 + data[2] as u32,
+        };
+        let ncuts = (data[2] % 8) as usize;
+        let mut cuts = Vec::new();
+        for i in 0..ncuts {
+            cuts.push(1 + (data[3].wrapping_mul(31).wrapping_add((i as u8).wrapping_mul(data[2] | 1)) % 23) as u16);
+        }
+        Some(C03Case { v5, stream: hex(stream), cuts, max_size, note: "rawfuzz:?pkts".into() })
+    }
+
     fn check(&self, case: &C03Case) -> CaseReport {
         let stream = unhex(&case.stream);
         let version = if case.v5 { rf::Version::V5 } else { rf::Version::V311 };
